@@ -29,6 +29,7 @@ type usePlan struct {
 	Extra       int  `json:"extra,omitempty"`        // unsolicited bytes the server sends some time after the response
 	ExtraDelay  int  `json:"extra_delay_ms,omitempty"`
 	NoPutBack   bool `json:"no_putback,omitempty"`   // the caller closes the stream instead of giving it back
+	NoRelease   bool `json:"no_release,omitempty"`   // the caller leaves ReleasePreviousRead to PutBack (ReleaseReadAndReuse keeps the last slice for the next write)
 	LingerMs    int  `json:"linger_ms,omitempty"`    // pause between the (partial) read and PutBack: unread bytes have arrived by then
 	SleepMs     int  `json:"sleep_ms,omitempty"`     // pause before the use
 }
@@ -95,6 +96,7 @@ func genUse(r *Rng, cfg sessCfg, prop string, lateOK bool) usePlan {
 			u.NoPutBack = true
 		}
 	}
+	u.NoRelease = r.Chance(1, 2)
 	if r.Chance(1, 4) {
 		u.SleepMs = r.Pick(1, 10, 100, 700)
 	}
@@ -663,7 +665,9 @@ func (w *mgrWorld) use(caller, useIdx int, u usePlan, mustSucceed bool) (ok bool
 				return false
 			}
 		}
-		st.BufferReader().ReleasePreviousRead()
+		if !u.NoRelease {
+			st.BufferReader().ReleasePreviousRead()
+		}
 	}
 	if u.LingerMs > 0 {
 		simrt.Sleep(time.Duration(u.LingerMs) * time.Millisecond)
